@@ -14,6 +14,11 @@
       the sink accepts <k> bytes and then fails with a short write; mode `stick`: it keeps failing,
       `once`: it fails once and accepts everything afterwards; full = what the encoder writes to an unlimited sink
 
+  Part 2: the nbt decoders (`nbt.any` … `nbt.fix2`: Model/NBTDecode printed by Driver.NBTCommon; `nbt.typed`, `nbtfield`:
+  Model/NBTTyped / NBTField printed by Driver.GoValText), `palette` (Model/Palette), `section` / `chunk` / `blockentity`
+  (Model/ChunkWire) — the owning properties' models on the chunked stream; writers `nbt` (Model/WritersNBT), `palette`,
+  `section` (Model/WritersLevel), `chunk` (Model/WritersChunk).
+
   The registries `decoders` / `encoders` have one line per decoder / encoder (harness/c09.go has the matching
   line).  The model side runs the decoder model on the chunked `Stream` / the `Wr` model under `budget := some k`.
   The spec oracle is decoder-generic and written from the property's sentence:
@@ -32,8 +37,16 @@ import Driver.C07
 import Driver.C11
 import Driver.C16
 import Driver.DYNBT
+import Driver.NBTCommon
+import Driver.C02
+import Driver.C08
 import GoMC.Model.Writers
+import GoMC.Model.WritersLevel
+import GoMC.Model.WritersNBT
+import GoMC.Model.WritersChunk
 import GoMC.Model.Readers
+import GoMC.Model.NBTField
+import GoMC.Model.ChunkWire
 namespace Driver.C09
 open GoMC GoMC.Model GoMC.Spec Driver
 
@@ -136,6 +149,80 @@ def runBits (p : List String) (s : Stream) : Option (String × Stream) :=
     let (r, s') := bitsRead st s
     (core r fun (n, st') => s!"n={n} raw={C11.hexOfLongs st'.raw}", s')
 
+/-! nbt.Decoder into tree-level destinations (models: Model/NBTDecode, printed by Driver.NBTCommon), into typed
+destinations (Model/NBTTyped, printed by Driver.GoValText), NBTField (Model/NBTField) -/
+
+def runNbtTree (dest : String) (p : List String) (s : Stream) : Option (String × Stream) :=
+  let net := kv p "fmt" == some "net"
+  let sh {α} (f : α → String) (r : Res (α × Bytes) × Stream) : String × Stream :=
+    (core r.1 fun (v, name) => s!"name={hexOfBytes name} v={f v}", r.2)
+  match dest with
+  | "any" => some (sh NBT.showAny (Model.NBT.decodeAny net s))
+  | "map" => some (sh NBT.showVal (Model.NBT.decodeMap net s))
+  | "skip" => some (sh NBT.showVal (Model.NBT.decodeSkip net s))
+  | "disallow" => some (sh NBT.showVal (Model.NBT.decodeDisallow net s))
+  | "raw" => some (sh NBT.showVal (Model.NBT.decodeRaw net s))
+  | "fix1" => some (sh NBT.showVal (Model.NBT.decodeTy net false NBT.fix1Ty s))
+  | "fix2" => some (sh NBT.showVal (Model.NBT.decodeTy net false NBT.fix2Ty s))
+  | _ => none
+
+def goTy (p : List String) : Option Model.Go.GoType :=
+  match (kv p "ty").bind fun d => GoText.parseType d.toList with
+  | some (t, []) => some t
+  | _ => none
+
+def runNbtTyped (p : List String) (s : Stream) : Option (String × Stream) :=
+  (goTy p).map fun t =>
+    let r := Model.Go.decodeTyped C02.cx (kv p "fmt" == some "net") (kv p "dis" == some "1") t s
+    (core r.1 fun (v, name) => s!"name={hexOfBytes name} v={GoText.showVal v}", r.2)
+
+def runNbtField (p : List String) (s : Stream) : Option (String × Stream) :=
+  (goTy p).map fun t =>
+    let r := Model.Go.fieldRead C02.cx (kv p "allow" == some "1") t t.zero s
+    (core r.1 fun (v, n) => s!"n={n} v={GoText.showVal v}", r.2)
+
+/-! level: the paletted container (Model/Palette), section / chunk / block entity (Model/ChunkWire), printed as in C08 -/
+
+def palOf (p : List String) : Option (Container × Nat) :=
+  match kv p "kind", (kv p "gb").bind String.toInt? with
+  | some k, some gb =>
+    if k == "states" then some (Container.new ⟨.blocks, gb⟩ 4096 0, 4096)
+    else if k == "biomes" then some (Container.new ⟨.biomes, gb⟩ 64 0, 64) else none
+  | _, _ => none
+
+def runPalette (p : List String) (s : Stream) : Option (String × Stream) :=
+  (palOf p).map fun (d, n) =>
+    match d.readFrom s with
+    | (.ok k, d', s') => (s!"ok n={k} v={(C08.contObs d' n).getD "panic"}", s')
+    | (.err, _, s') => ("err", s')
+    | (.panic, _, s') => ("panic", s')
+
+def gbsOf (p : List String) : Option C13.M.Ctx :=
+  match kv p "gbs", kv p "gbb" with
+  | some a, some b => C08.ctxOf a b
+  | _, _ => none
+
+def coreV {α} (r : Res (α × Nat) × Stream) (sh : α → Option String) : String × Stream :=
+  (core r.1 fun (v, n) => s!"n={n} v={(sh v).getD "panic"}", r.2)
+
+def runSection (p : List String) (s : Stream) : Option (String × Stream) :=
+  (gbsOf p).bind fun x =>
+    match C13.M.build x 1 [] with
+    | .ok d =>
+      match d.secs with
+      | sec :: _ => some (coreV (Model.Chunk.Section.readFrom x.gbS x.gbB sec s) C08.secObs)
+      | [] => none
+    | _ => none
+
+def runChunk (p : List String) (s : Stream) : Option (String × Stream) :=
+  (gbsOf p).bind fun x =>
+    match C13.M.build x (C06.natArg ((kv p "secs").getD "1")) [] with
+    | .ok d => some (coreV (Model.Chunk.Chunk.readFrom x.gbS x.gbB d s) C08.chunkObs)
+    | _ => none
+
+def runBlockEntity (_ : List String) (s : Stream) : Option (String × Stream) :=
+  some (coreV (Model.Chunk.BlockEntity.readFrom (0#8, 0, 0#32, ⟨0#8, []⟩) s) fun e => some (C13.M.entsObs ⟨[e], []⟩))
+
 /-- THE REGISTRY (readers): one line per decoder -/
 def decoders : List (String × Dec) := [
   ("varint", { run := runVar 32 }),
@@ -148,7 +235,20 @@ def decoders : List (String × Dec) := [
   ("dynbt.net", { run := runDynbt false }),
   ("dynbt.file", { run := runDynbt true }),
   ("snbt", { run := runSnbt }),
-  ("bits", { run := runBits })
+  ("bits", { run := runBits }),
+  ("nbt.any", { run := runNbtTree "any" }),
+  ("nbt.map", { run := runNbtTree "map" }),
+  ("nbt.skip", { run := runNbtTree "skip" }),
+  ("nbt.disallow", { run := runNbtTree "disallow" }),
+  ("nbt.raw", { run := runNbtTree "raw" }),
+  ("nbt.fix1", { run := runNbtTree "fix1" }),
+  ("nbt.fix2", { run := runNbtTree "fix2" }),
+  ("nbt.typed", { run := runNbtTyped }),
+  ("nbtfield", { run := runNbtField }),
+  ("palette", { run := runPalette }),
+  ("section", { run := runSection }),
+  ("chunk", { run := runChunk }),
+  ("blockentity", { run := runBlockEntity })
 ]
 
 def showObs (c : String) (s' : Stream) : String :=
@@ -239,20 +339,87 @@ def encDynbt (p : List String) : Option (Wr Unit) :=
     | _ => none
   | _ => none
 
+/-- the container the wire form `wire=` denotes: the model's `ReadFrom` into a fresh container -/
+def encPalette (p : List String) : Option (Wr Unit) :=
+  match palOf p, (kv p "wire").bind parseHex with
+  | some (d, _), some wire =>
+    match d.readFrom (Stream.ofBytes wire) with
+    | (.ok _, c, _) => some (forget (wContainer c))
+    | _ => none
+  | _, _ => none
+
+def encSection (p : List String) : Option (Wr Unit) :=
+  match gbsOf p, (kv p "wire").bind parseHex with
+  | some x, some wire =>
+    match C13.M.build x 1 [] with
+    | .ok d =>
+      match d.secs with
+      | sec :: _ =>
+        match Model.Chunk.Section.readFrom x.gbS x.gbB sec (Stream.ofBytes wire) with
+        | (.ok (sec', _), _) => some (forget (wSection sec'.core))
+        | _ => none
+      | [] => none
+    | _ => none
+  | _, _ => none
+
+/-- `nbt.Encoder.Encode(v, name)`: the value travels in C02's text form -/
+def encNbt (p : List String) : Option (Wr Unit) :=
+  match goTy p, (kv p "name").bind parseHex with
+  | some t, some name =>
+    match (kv p "val").bind fun v => GoText.parseVal t v.toList with
+    | some (v, []) => some (Model.Go.wEncode C02.cx (kv p "fmt" == some "net") name (some v))
+    | _ => none
+  | _, _ => none
+
+/-- `Chunk.WriteTo` of the chunk the wire form `wire=` denotes (the model's `ReadFrom` into an empty chunk) -/
+def encChunk (p : List String) : Option (Wr Unit) :=
+  match gbsOf p, (kv p "wire").bind parseHex with
+  | some x, some wire =>
+    match C13.M.build x (C06.natArg ((kv p "secs").getD "1")) [] with
+    | .ok d =>
+      match Model.Chunk.Chunk.readFrom x.gbS x.gbB d (Stream.ofBytes wire) with
+      | (.ok (c, _), _) => some (forget (Model.Chunk.wChunk C02.cx x.gbS x.gbB c))
+      | _ => none
+    | _ => none
+  | _, _ => none
+
+/-- ORACLE-ONLY encoders (none at present): encoders without a `Wr` model would be listed here; for them only the generic
+oracle applies (a sink accepting fewer bytes than the encoding ⇒ error; room for all ⇒ success with all bytes) and the
+model column echoes the observation. -/
+def oracleEncoders : List String := []
+
 /-- THE REGISTRY (writers): one line per encoder -/
 def encoders : List (String × (List String → Option (Wr Unit))) := [
   ("fld", encFld),
   ("pack", encPack),
   ("rcon", encRcon),
   ("bits", encBits),
-  ("dynbt", encDynbt)
+  ("dynbt", encDynbt),
+  ("palette", encPalette),
+  ("section", encSection),
+  ("nbt", encNbt),
+  ("chunk", encChunk)
 ]
 
 def showW (r : Res Unit × WState) : String := s!"{resTag r.1} wrote={hexOfBytes r.2.out}"
 
+def wfaultSpec (k : Nat) (full : Bytes) (obs : String) : Option String :=
+  let wantFull := s!"ok wrote={hexOfBytes full}"
+  if obs == "panic" then some "encoder panicked" else
+  if k < full.length then
+    (if cls obs == "err" then none
+     else some s!"the sink accepted {k} of {full.length} bytes and failed, but the encoder reports success")
+  else
+    (if obs == wantFull then none else some s!"the sink had room for the whole encoding: expected {wantFull.take 200}")
+
 def wfault (args : List String) (obs : String) : Verdict :=
   match args with
   | name :: _mode :: kS :: params =>
+    if oracleEncoders.contains name then
+      match kS.toNat?, (kv params "full").bind C07.parseBx with
+      | some k, some full => { model := obs, spec := wfaultSpec k full obs }
+      | _, _ => { model := "bad-arg" }
+    else
     match encoders.lookup name, kS.toNat?, (kv params "full").bind C07.parseBx with
     | some mk, some k, some full =>
       match mk params with
